@@ -11,8 +11,9 @@
              autoarray/mask/derive/grid_2d.py     edge, border   (grid_2d_slim_via_mask_from)
              autoarray/structures/grids/uniform_2d.py  Grid2D.blurring_grid_from
    Part 3  independent SPECIFICATION (set-theoretic, no loops with state).
-   Part 4  correspondence: [case], [agree] (model = implementation), [spec_ok] (specification accepts
-           the implementation's output; never calls Part 2), [check]. *)
+   Part 4  correspondence for one operation: [case1], [agree1] (model = implementation), [spec_ok] (specification accepts
+           the implementation's output; never calls Part 2).
+   Part 5  histories (objects edited in place, copied, derived, re-read): [hstep], [hist_ok], [case], [agree], [spec_ok], [check]. *)
 From Coq Require Import ZArith List Bool Lia.
 From PAV Require Import Base.Res Base.Check.
 Import ListNotations.
@@ -271,7 +272,8 @@ Record views := {
   v_mask_edge : mask; v_mask_border : mask; v_mask_buffed : mask;
   v_grid_edge : list (Z * Z); v_grid_edge_mask : mask; v_grid_border : list (Z * Z); v_grid_border_mask : mask }.
 
-Inductive case :=
+(* one observed operation on one mask *)
+Inductive case1 :=
   (* mask_2d_util.blurring_mask_2d_from *)
 | KBlurUtil (m : mask) (kh kw : Z) (out : res mask)
   (* Mask2D.derive_mask.blurring_from *)
@@ -283,9 +285,12 @@ Inductive case :=
   (* mask_2d_util.check_if_edge_pixel on every unmasked pixel, in scan order *)
 | KCheckEdge (m : mask) (out : list bool)
   (* Mask2D.derive_indexes / derive_mask / derive_grid *)
-| KViews (m : mask) (g : geom) (v : views).
+| KViews (m : mask) (g : geom) (v : views)
+  (* np.array(mask): the contents only (used inside histories, where the mask field of every read is the contents
+     the implementation shows at that moment) *)
+| KContents (m : mask).
 
-Definition agree (k : case) : bool :=
+Definition agree1 (k : case1) : bool :=
   match k with
   | KBlurUtil m kh kw out => rmask_eqb (blurring_mask_2d_from m kh kw) out
   | KBlur m kh kw out => rmask_eqb (blurring_from m kh kw) out
@@ -302,6 +307,7 @@ Definition agree (k : case) : bool :=
       && mask_eqb (mask_edge_buffed m) (v_mask_buffed v)
       && pxl_eqb (grid_edge m g) (v_grid_edge v) && mask_eqb (mask_edge m) (v_grid_edge_mask v)
       && pxl_eqb (grid_border m g) (v_grid_border v) && mask_eqb (mask_border m) (v_grid_border_mask v)
+  | KContents _ => true
   end.
 
 (* the specification's verdict on what the IMPLEMENTATION returned (no model function below) *)
@@ -314,7 +320,7 @@ Definition set_views_ok (m : mask) (g : geom) (sl : list Z) (nat_ : list px) (mk
   pxl_eqb nat_ (native_of m sl) && mask_eqb mk (mask_of m nat_) && pxl_eqb (unmasked_pixels mk) nat_
   && pxl_eqb gr (grid_of m g nat_) && mask_eqb gmk mk.
 
-Definition spec_ok (k : case) : bool :=
+Definition spec_ok1 (k : case1) : bool :=
   match k with
   | KBlurUtil m kh kw out =>
       (* the property only speaks about odd kernel shapes *)
@@ -340,6 +346,110 @@ Definition spec_ok (k : case) : bool :=
        && set_views_ok m g (v_edge_slim v) (v_edge_native v) (v_mask_edge v) (v_grid_edge v) (v_grid_edge_mask v)
        && set_views_ok m g (v_border_slim v) (v_border_native v) (v_mask_border v) (v_grid_border v) (v_grid_border_mask v)
        && mask_eqb (v_mask_buffed v) (buffed_spec m 1))
+  | KContents _ => true
+  end.
+
+(* ------------------------------------------------------------------------------------------ *)
+(* Part 5: histories -- several Mask2D objects, edited in place, copied, derived from one      *)
+(* another, and read again.                                                                    *)
+(*                                                                                             *)
+(* MODEL of the object layer (autoarray/abstract_ndarray.py, autoarray/mask/mask_2d.py):       *)
+(*   - a Mask2D owns one boolean array (Mask.__init__: mask.astype("bool") copies);            *)
+(*   - obj[y, x] = v writes that array in place (AbstractNDArray.__setitem__);                  *)
+(*   - copy() / copy.copy / copy.deepcopy / Mask2D(mask=obj) give a new object with its own    *)
+(*     array of the same contents (__copy__: new._array = self._array.copy());                  *)
+(*   - derive_indexes / derive_mask / derive_grid are plain @property: every read builds a new *)
+(*     Derive* object around the mask and every view is recomputed from np.array(self.mask),   *)
+(*     so a read returns the pure function (Part 2) of the CURRENT contents and changes        *)
+(*     nothing; the Mask2D objects returned by derive_mask.* own fresh arrays.                 *)
+(* The state of a history is therefore just the list of the objects' contents.                *)
+(* ------------------------------------------------------------------------------------------ *)
+Definition case_mask (k : case1) : mask :=
+  match k with
+  | KBlurUtil m _ _ _ | KBlur m _ _ _ | KBlurGrid m _ _ _ _ | KUtil m _ _ _ _ _ | KCheckEdge m _ | KViews m _ _
+  | KContents m => m
+  end.
+
+(* a Mask2D derived from another one through the public API *)
+Inductive dsel :=
+| DEdge                    (* derive_mask.edge, derive_grid.edge.mask *)
+| DBorder                  (* derive_mask.border, derive_grid.border.mask *)
+| DBuffed                  (* derive_mask.edge_buffed *)
+| DBlur (kh kw : Z)        (* derive_mask.blurring_from(k), Grid2D.blurring_grid_from(mask, k).mask *)
+| DInvert.                 (* invert() *)
+
+(* model: the Part 2 function of the source contents *)
+Definition derive (c : mask) (d : dsel) : res mask :=
+  match d with
+  | DEdge => Ok (mask_edge c)
+  | DBorder => Ok (mask_border c)
+  | DBuffed => Ok (mask_edge_buffed c)
+  | DBlur kh kw => blurring_from c kh kw
+  | DInvert => Ok (map (map negb) c)          (* np.invert *)
+  end.
+Definition derive_agree (c : mask) (d : dsel) (out : mask) : bool := rmask_eqb (derive c d) (Ok out).
+(* specification (Part 3 only): edge = unmasked and not interior; border = edge and a clear walk *)
+Definition derive_spec_ok (c : mask) (d : dsel) (out : mask) : bool :=
+  match d with
+  | DEdge => mask_eqb out (build (shape0 c) (shape1 c) (fun q => negb (negb (getp c q) && touches c q)))
+  | DBorder => mask_eqb out (build (shape0 c) (shape1 c) (fun q => negb (negb (getp c q) && touches c q && walk_clear c q)))
+  | DBuffed => negb (rectb c) || mask_eqb out (buffed_spec c 1)
+  | DBlur kh kw => spec_ok1 (KBlur c kh kw (Ok out))
+  | DInvert => negb (rectb c) || mask_eqb out (build (shape0 c) (shape1 c) (fun q => negb (getp c q)))
+  end.
+
+Inductive hstep :=
+  (* a new object with these contents: Mask2D(mask=array / list), obj.with_new_array(array), obj.resized_from(...) *)
+| HNew (m : mask)
+  (* a new object with the contents of object o and its own array: o.copy(), copy.copy(o), copy.deepcopy(o), Mask2D(mask=o) *)
+| HCopy (o : nat)
+  (* the Mask2D that the implementation derived from object o (it returned [out]) becomes a new object *)
+| HDerive (o : nat) (d : dsel) (out : mask)
+  (* o[y, x] = v  (also o.mask[y, x] = v, o[y][x] = v, o[boolean key] = v cell by cell) *)
+| HEdit (o : nat) (y x : Z) (v : bool)
+  (* some views of object o are read (selector numbers, in this order) and the values thrown away *)
+| HTouch (o : nat) (sels : list Z)
+  (* operation k is observed on object o; the mask field of k is what np.array(o) shows at that moment *)
+| HRead (o : nat) (k : case1).
+
+Definition hstate := list mask.                   (* contents of object 0, 1, 2, ... *)
+Definition contents (st : hstate) (o : nat) : mask := nth o st [].
+Definition step_state (st : hstate) (s : hstep) : hstate :=
+  match s with
+  | HNew m => st ++ [m]
+  | HCopy o => st ++ [contents st o]
+  | HDerive _ _ out => st ++ [out]
+  | HEdit o y x v => upd st o (fun c => set c y x v)
+  | HTouch _ _ | HRead _ _ => st                 (* reading changes nothing *)
+  end.
+(* [ok1] judges a single observed operation, [dok] a derived mask *)
+Definition step_ok (ok1 : case1 -> bool) (dok : mask -> dsel -> mask -> bool) (st : hstate) (s : hstep) : bool :=
+  match s with
+  | HRead o k => mask_eqb (case_mask k) (contents st o) && ok1 k
+  | HDerive o d out => dok (contents st o) d out
+  | _ => true
+  end.
+Fixpoint hist_ok (ok1 : case1 -> bool) (dok : mask -> dsel -> mask -> bool) (st : hstate) (steps : list hstep) : bool :=
+  match steps with
+  | [] => true
+  | s :: t => step_ok ok1 dok st s && hist_ok ok1 dok (step_state st s) t
+  end.
+(* independent description of "the current contents": the state after the first i steps *)
+Definition state_after (steps : list hstep) (i : nat) : hstate := fold_left step_state (firstn i steps) [].
+
+Inductive case :=
+| K1 (k : case1)
+| KHist (steps : list hstep).
+
+Definition agree (k : case) : bool :=
+  match k with
+  | K1 k => agree1 k
+  | KHist steps => hist_ok agree1 derive_agree [] steps
+  end.
+Definition spec_ok (k : case) : bool :=
+  match k with
+  | K1 k => spec_ok1 k
+  | KHist steps => hist_ok spec_ok1 derive_spec_ok [] steps
   end.
 
 Definition check (k : case) : nat := verdict (agree k) (spec_ok k).
